@@ -191,7 +191,7 @@ def r20_6(ctx):
                     trace=p.trace(14))
 
 
-@rule("R20.7", ["C20"], "T-ORD", floor=2)
+@rule("R20.7", ["C20", "C11", "C10"], "T-ORD", floor=2)
 def r20_7(ctx):
     """Stopping the secondary loop: force_stop is a no-op without a loop; otherwise it cancels every task and stops
     the loop only when *all* of them have finished - the gather whose completion stops the loop is created with
